@@ -40,6 +40,10 @@ MENUS = (
     ("HLight", "HLightStr"),
     ("HMixSlot",),
     ("HMixSlot", "HNode"),
+    ("PNode",),
+    ("PAny",),
+    ("PNode", "PSym"),
+    ("PNode", "PAny", "PSym"),
     ("HNodeBag", "HNode"),
     ("HNodeEq",),
 )
@@ -458,6 +462,11 @@ def run(cfg, ops=None, rng=None):
                     res.bump("snapshot_recursion")
                     step += 1
                     continue
+                except Exception as exc:  # noqa: BLE001
+                    raise Violation(
+                        prop, "snapshot-raises", step, "snapshot-raises:%s:%s" % (op["method"][:6], type(exc).__name__),
+                        "step %d %s of a %s: %s: %s" % (step, op, type(world.nodes[entry]).__name__, type(exc).__name__, exc),
+                    )
                 res.bump("snapshots")
                 res.bump("snap_" + op["method"])
                 res.bump("snap_lazy" if lazy else "snap_observed")
